@@ -104,6 +104,12 @@ pub fn def(tier: Tier) -> PropertyDef {
 		for inner in INNER {
 			checks.push(Box::new(Embedded { feature: f.to_string(), inner, tier }));
 		}
+		if tier == Tier::Thorough {
+			// the averaging laws / impulse responses and the serde round trips inside the build as well
+			for inner in ["C15", "C13"] {
+				checks.push(Box::new(Embedded { feature: f.to_string(), inner, tier: Tier::Quick }));
+			}
+		}
 	}
 	PropertyDef {
 		id: "C20",
